@@ -30,6 +30,11 @@ package pstore
 //     Afterwards the first stream is drained (it must close as well). The same closure-only rule is applied to a Search
 //     issued after Vault.Close (optional last step of a case) and to "cancelled" queries: Search/List entered with a
 //     context that is already cancelled;
+//   * "busy" queries: a goroutine keeps writing to plans of the store through the public API (UpdatePlan and UpdateAction
+//     with objects obtained from Read and NOTHING changed, i.e. it re-writes the stored state) while Search/List queries
+//     run; the writes change nothing a query depends on, so the full oracle applies, in particular "every result stream
+//     is eventually closed" (rules carry the suffix "+writer"). The engine does exactly this: it records progress while
+//     a service lists plans;
 //   * On the cosmos fake only Exists is judged: the fake discards the query text of Search/List (it filters by @ids only
 //     and ignores ORDER BY, status and group predicates), so their semantics would be the fake's, not the vault's.
 
@@ -66,7 +71,7 @@ type StorePlan struct {
 // Query is one query against the store. Plan references are indices into Plans; an index >= len(Plans) denotes an id that
 // was never created.
 type Query struct {
-	// Kind: "exists", "search", "list", "contended".
+	// Kind: "exists", "search", "list", "contended", "cancelled", "busy".
 	Kind   string
 	Exists int   `json:",omitempty"`
 	IDs    []int `json:",omitempty"`
@@ -74,6 +79,9 @@ type Query struct {
 	Groups   []int `json:",omitempty"`
 	Statuses []int `json:",omitempty"`
 	Limit    int   `json:",omitempty"`
+	// busy: Second/filters/Limit as for contended, executed Repeat times while a writer goroutine re-writes plan and action
+	// states of the store.
+	Repeat int `json:",omitempty"`
 	// contended: First ("list" | "search") is opened and left unconsumed, then Second ("search" with the filters above |
 	// "list" with Limit) is called with a context that expires after DeadlineMS milliseconds.
 	First      string `json:",omitempty"`
@@ -141,7 +149,7 @@ func genStoreCase(t *rapid.T) StoreCase {
 	nq := rapid.IntRange(1, 12).Draw(t, "nqueries")
 	for i := 0; i < nq; i++ {
 		var q Query
-		switch r := rapid.IntRange(0, 9).Draw(t, "qkind"); {
+		switch r := rapid.IntRange(0, 10).Draw(t, "qkind"); {
 		case r <= 3:
 			q.Kind = "search"
 			filters(&q)
@@ -151,6 +159,15 @@ func genStoreCase(t *rapid.T) StoreCase {
 		case r <= 7:
 			q.Kind = "list"
 			q.Limit = rapid.IntRange(0, n+2).Draw(t, "limit")
+		case r == 10:
+			q.Kind = "busy"
+			q.Second = rapid.SampledFrom([]string{"search", "list"}).Draw(t, "second")
+			q.Repeat = rapid.IntRange(2, 6).Draw(t, "repeat")
+			if q.Second == "search" {
+				filters(&q)
+			} else {
+				q.Limit = rapid.IntRange(1, n+2).Draw(t, "limit")
+			}
 		case r == 9:
 			// Search/List entered with a context that is ALREADY cancelled (closure-only rule). Before /repo cff7769 the
 			// error of the worker pool's Submit was ignored: about one such call in four returned a stream that was never
@@ -236,10 +253,91 @@ type c15run struct {
 	stalled bool
 	// closed: the case itself closed the vault
 	closed bool
+	// tag is appended to every rule while a special context is active ("+writer")
+	tag string
 }
 
 func (r *c15run) fail(rule, format string, a ...any) {
-	r.res.Fail(armRule("C15", r.arm, rule), format, a...)
+	r.res.Fail(armRule("C15", r.arm, rule+r.tag), format, a...)
+}
+
+// busy runs the query Repeat times while a goroutine re-writes plan and action states of the store (nothing changes).
+func (r *c15run) busy(ctx context.Context, q Query) {
+	var lives []*workflow.Plan
+	for _, p := range r.plans {
+		if !p.present {
+			continue
+		}
+		var live *workflow.Plan
+		var err error
+		if guard(r.res, "C15", r.arm, "Read for the concurrent writer", func() { live, err = r.h.Vault.Read(ctx, p.id) }) {
+			return
+		}
+		if err != nil || live == nil || live.State == nil {
+			r.res.Label("busy_read_failed_skipped") // Read is C13's business
+			return
+		}
+		lives = append(lives, live)
+	}
+	if len(lives) == 0 {
+		r.res.Label("busy_skipped_empty_store")
+		return
+	}
+	stop, done := make(chan struct{}), make(chan struct{})
+	var writes, werrs atomic.Int64
+	go func() {
+		defer close(done)
+		defer func() {
+			if rec := recover(); rec != nil {
+				werrs.Add(1 << 20)
+			}
+		}()
+		for i := 0; ; i++ {
+			select {
+			case <-stop:
+				return
+			default:
+			}
+			p := lives[i%len(lives)]
+			var err error
+			if i%2 == 0 {
+				err = r.h.Vault.UpdatePlan(ctx, p) // same status, times and reason as stored
+			} else if len(p.Blocks) > 0 && p.Blocks[0] != nil && len(p.Blocks[0].Sequences) > 0 && p.Blocks[0].Sequences[0] != nil &&
+				len(p.Blocks[0].Sequences[0].Actions) > 0 && p.Blocks[0].Sequences[0].Actions[0] != nil && p.Blocks[0].Sequences[0].Actions[0].State != nil {
+				err = r.h.Vault.UpdateAction(ctx, p.Blocks[0].Sequences[0].Actions[0]) // same state and attempts as stored
+			}
+			if err != nil {
+				werrs.Add(1)
+			}
+			writes.Add(1)
+		}
+	}()
+	r.tag = "+writer"
+	for i := 0; i < max(1, q.Repeat) && len(r.res.Violations) == 0 && !r.res.Skip; i++ {
+		if q.Second == "list" {
+			r.list(ctx, q.Limit)
+		} else {
+			r.search(ctx, q, "search")
+		}
+	}
+	r.tag = ""
+	close(stop)
+	timer := time.NewTimer(stallWindow())
+	defer timer.Stop()
+	select {
+	case <-done:
+	case <-timer.C:
+		// the writer is wedged inside the vault: whatever the reason, this vault must not be used or closed any more
+		r.stalled = true
+		r.res.Label("busy_writer_wedged")
+	}
+	if writes.Load() > 0 {
+		r.res.Label("busy_writer_wrote")
+	}
+	if werrs.Load() > 0 {
+		r.res.Label("busy_writer_update_errors_unjudged") // Update* errors are C13's business
+	}
+	vprop.Count("busy_writes", writes.Load())
 }
 
 func (r *c15run) idOf(i int) uuid.UUID {
@@ -742,6 +840,16 @@ func checkStoreCase(c StoreCase) (res vprop.Result) {
 				}
 			}) {
 				r.closureOnly(what, q.Second+"-cancelled-ctx", ch, err)
+			}
+		case "busy":
+			if arm == store.ArmCosmosFake {
+				res.Label("cosmos_fake_search_unjudged")
+				continue
+			}
+			res.Label("busy_writer")
+			r.busy(ctx, q)
+			if r.stalled {
+				return res // the vault is abandoned
 			}
 		case "contended":
 			if arm == store.ArmCosmosFake {
